@@ -66,7 +66,7 @@ fn axes(quick: bool, f32: bool) -> Vec<Axis> {
             &[0.0],
         ));
     } else {
-        v.extend(alpha::full_word_axes(&alpha::h4(), "w", 2, 7, &offs));
+        v.extend(alpha::full_word_axes(&alpha::h4(), "w", 2, 8, &offs));
         v.extend(alpha::full_word_axes(&alpha::hw(), "W", 2, 6, &[0.0]));
         v.extend(alpha::long_word_axes(
             &alpha::h4(),
